@@ -511,7 +511,7 @@ def queries(tier):
                          "length is used), method in %r" % (kind, lo, hi, METHODS), timeout=100, family="size",
                          expect_cover=["content-length-checked", "head"], config={"kind": kind}))
     for shape in SHAPES:
-        if shape in USES_STATUS and shape not in ERROR_PAGE and not T:
+        if shape in USES_STATUS and shape not in ERROR_PAGE and (not T or shape in SHARED):     # (shared_*: two requests per path)
             fn = make_status_quick(shape)
             bound = "status in %r (source-derived); body <= 1 code point, <= 1 leading empty item, no failing hook" % (STATUSES,)
         elif shape in ERROR_PAGE:
